@@ -6,7 +6,7 @@
    proto.Unmarshal + WALFromProto on the payload.  The decoder is the one with the F8 repair
    (last argument [true] of decode1/decode_all). *)
 From Coq Require Import List ZArith NArith Bool Lia.
-From TM Require Import Common.Hex Generated.Consts C15.Crc32c C15.Model C15.Proofs.
+From TM Require Import Common.Hex Generated.Consts C15.Crc32c C15.Model C15.Proofs C15.ProofsSearch.
 Import ListNotations.
 Open Scope Z_scope.
 
@@ -216,4 +216,289 @@ Example C15_cycle_nonvacuous :
   let s0 := init 0 0 in
   let s1 := fold_left (dstep crc32c_be vtrue) [DWriteSync ex_r1; DWriteSync ex_r2; DWrite ex_r1; DCrash 3] s0 in
   read_all crc32c_be vtrue true s1 = ([ex_r1; ex_r2], TEof).
+Proof. vm_compute. reflexivity. Qed.
+
+(* ================================================================== SearchForEndHeight, the
+   catch-up search and the repair loop of State.OnStart (coq/C15/ProofsSearch.v).
+
+   [SInv crc valid s fs hr t]: the indexed files of s are the frames of the record lists fs, the
+   head FILE (what a reader sees; bytes still in the bufio buffer are not in it) is the frames of
+   hr followed by t.  [tail_ok crc tb t]: t is empty (tb = false) or a non-empty strict prefix
+   of a frame (tb = true), the torn record left by a crash or by an unflushed buffer.
+   J = concat fs ++ hr is the journal of surviving records, [markers eh_of J] its #ENDHEIGHT
+   heights.  [Idx s]: minIndex is not above the oldest file on disk.  [MonoNZ eh_of J]: the
+   non-zero markers increase strictly (finalizeCommit writes #ENDHEIGHT 1, 2, 3, ...; OnStart
+   writes #ENDHEIGHT 0 into every empty head, so zero markers may stand anywhere).
+   [torn_first eh_of tb ig h hr] = torn tail /\ IgnoreDataCorruptionErrors = false /\ marker h not
+   in the head: the only way a torn record is met before the marker in scan order (the scan
+   starts with the head and every reader runs to the end of the head). *)
+
+(* (1) Clause 3.  found = true IFF the marker is a surviving record (and the torn record is not
+   met first, in which case the result is the corruption error — also when an older file holds
+   the marker); not found IFF it is not; the returned reader stands exactly behind the (only)
+   marker: reading it to the end yields the records of J after the marker, then EOF, or the
+   corruption error when the tail is torn.  Both option sets.  The state changes at most by
+   empty files re-created below the oldest one (stale minIndex + O_CREATE). *)
+Theorem C15_search_iff :
+  forall (crc : bytes -> bytes) (valid : bytes -> bool) (eh_of : bytes -> option Z),
+  (forall d, length (crc d) = 4%nat) ->
+  forall (s : st) (fs : list (list bytes)) (hr : list bytes) (t : bytes) (tb ig : bool) (h : Z)
+         (r : sres) (s' : st),
+    SInv crc valid s fs hr t -> tail_ok crc tb t -> Idx s -> MonoNZ eh_of (concat fs ++ hr) ->
+    search crc valid eh_of true s h ig = (r, s') ->
+    ((exists rest, r = Found rest) <->
+     In h (markers eh_of (concat fs ++ hr)) /\ ~ torn_first eh_of tb ig h hr) /\
+    (r = SearchErr <-> torn_first eh_of tb ig h hr) /\
+    (r = NotFound <-> ~ In h (markers eh_of (concat fs ++ hr)) /\ ~ torn_first eh_of tb ig h hr) /\
+    (forall rest, r = Found rest -> exists pre d post,
+       concat fs ++ hr = pre ++ d :: post /\ eh_of d = Some h /\
+       rest = frames crc post ++ t /\
+       decode_all crc valid true RGroup rest = (post, if tb then TCorrupt else TEof) /\
+       (h <> 0 -> ~ In h (markers eh_of pre) /\ ~ In h (markers eh_of post))) /\
+    (exists fs', SInv crc valid s' fs' hr t /\ concat fs' = concat fs /\ same_mem s s' /\ Idx s').
+Proof. exact search_iff_mono. Qed.
+Print Assumptions C15_search_iff.
+
+(* The same without any assumption on the order of the markers except that the early-exit
+   shortcut is harmless for h ([exit_free]: the LAST marker of the journal is not strictly
+   between 0 and h — every turn of the loop reads to the end of the head, so lastHeightFound is
+   always that marker).  A marker that occurs several times (#ENDHEIGHT 0) is found in the
+   newest file that holds one (k, counted from the oldest file on disk; the head is number
+   |fs|), at its first occurrence there. *)
+Theorem C15_search_general :
+  forall (crc : bytes -> bytes) (valid : bytes -> bool) (eh_of : bytes -> option Z),
+  (forall d, length (crc d) = 4%nat) ->
+  forall (s : st) (fs : list (list bytes)) (hr : list bytes) (t : bytes) (tb ig : bool) (h : Z)
+         (r : sres) (s' : st),
+    SInv crc valid s fs hr t -> tail_ok crc tb t -> Idx s ->
+    exit_free eh_of h (concat fs ++ hr) ->
+    search crc valid eh_of true s h ig = (r, s') ->
+    let J := concat fs ++ hr in
+    let segs := fs ++ [hr] in
+    (exists fs', SInv crc valid s' fs' hr t /\ concat fs' = concat fs /\ same_mem s s' /\ Idx s') /\
+    (torn_first eh_of tb ig h hr -> r = SearchErr) /\
+    (~ torn_first eh_of tb ig h hr -> In h (markers eh_of J) ->
+       exists k pre1 d post, (k <= length fs)%nat /\
+         concat (skipn k segs) = pre1 ++ d :: post /\ eh_of d = Some h /\
+         ~ In h (markers eh_of pre1) /\ ~ In h (markers eh_of (concat (skipn (S k) segs))) /\
+         J = (concat (firstn k segs) ++ pre1) ++ d :: post /\
+         r = Found (frames crc post ++ t) /\
+         decode_all crc valid true RGroup (frames crc post ++ t) =
+           (post, if tb then TCorrupt else TEof)) /\
+    (~ torn_first eh_of tb ig h hr -> ~ In h (markers eh_of J) -> r = NotFound).
+Proof. exact search_spec. Qed.
+Print Assumptions C15_search_general.
+
+(* the hypothesis in its usual form: non-zero markers strictly increasing *)
+Theorem C15_increasing_markers :
+  forall (eh_of : bytes -> option Z) (J : list bytes),
+    Sorted.StronglySorted Z.lt (filter (fun m => negb (m =? 0)) (markers eh_of J)) ->
+    MonoNZ eh_of J /\ forall h, exit_free eh_of h J.
+Proof.
+  intros eh_of J H. pose proof (sorted_MonoNZ eh_of J H) as M.
+  split; [exact M|]. intro h. exact (MonoNZ_exit_free eh_of J h M).
+Qed.
+Print Assumptions C15_increasing_markers.
+
+(* (1) over operation lists: every state reached from a directory with rolled files (any base)
+   by writes, synced writes, flushes, rotations, limit checks and crash/repair cycles satisfies
+   the hypotheses of C15_search_iff for the journal of C15_durable_across_cycles_partial; the
+   head file holds the whole records hr of js ++ ju that left the buffer (all of them, without
+   torn tail, when the buffer is empty). *)
+Theorem C15_search_iff_reachable :
+  forall (crc : bytes -> bytes) (valid : bytes -> bool) (eh_of : bytes -> option Z),
+  (forall d, length (crc d) = 4%nat) -> valid [] = false ->
+  forall (hl tl b : Z) (pre : list (list bytes)) (ops : list dop),
+    Forall (okrec valid) (concat pre) -> Forall (okop valid) ops ->
+    let s := fold_left (dstep crc valid) ops (init_at crc hl tl b pre) in
+    (exists j hr lost t tb,
+       jsteps (J pre [] []) ops j /\ JInv crc valid s j /\
+       js j ++ ju j = hr ++ lost /\ (buf s = [] -> lost = [] /\ tb = false) /\
+       SInv crc valid s (jf j) hr t /\ tail_ok crc tb t /\ Idx s /\
+       forall h ig r s', MonoNZ eh_of (concat (jf j) ++ hr) ->
+         search crc valid eh_of true s h ig = (r, s') ->
+         ((exists rest, r = Found rest) <->
+          In h (markers eh_of (concat (jf j) ++ hr)) /\ ~ torn_first eh_of tb ig h hr) /\
+         (r = SearchErr <-> torn_first eh_of tb ig h hr) /\
+         (r = NotFound <->
+          ~ In h (markers eh_of (concat (jf j) ++ hr)) /\ ~ torn_first eh_of tb ig h hr) /\
+         (forall rest, r = Found rest -> exists p d post,
+            concat (jf j) ++ hr = p ++ d :: post /\ eh_of d = Some h /\
+            rest = frames crc post ++ t /\
+            decode_all crc valid true RGroup rest = (post, if tb then TCorrupt else TEof) /\
+            (h <> 0 -> ~ In h (markers eh_of p) /\ ~ In h (markers eh_of post))))
+    \/ CrcCollision crc.
+Proof. exact search_iff_reachable. Qed.
+Print Assumptions C15_search_iff_reachable.
+
+(* (2) crash at ANY byte offset of the unsynced tail + repairWalFile: the marker of every
+   durable (rolled or synced) #ENDHEIGHT record is still found — with either option — and the
+   reader behind it returns exactly the durable records behind the marker, followed by the
+   unsynced ones that happened to survive, then EOF; or the checksum collides. *)
+Theorem C15_search_after_repair :
+  forall (crc : bytes -> bytes) (valid : bytes -> bool) (eh_of : bytes -> option Z),
+  (forall d, length (crc d) = 4%nat) -> valid [] = false ->
+  forall (s : st) (fs : list (list bytes)) (hs hu : list bytes) (keep : Z) (ig : bool) (h : Z)
+         (pre : list bytes) (d : bytes) (post : list bytes),
+    Inv crc valid s fs hs hu -> Idx s -> MonoNZ eh_of (concat fs ++ hs ++ hu) -> h <> 0 ->
+    concat fs ++ hs = pre ++ d :: post -> eh_of d = Some h ->
+    (exists kept lost s',
+       hu = kept ++ lost /\
+       Inv crc valid (crash_repair crc valid s keep) fs (hs ++ kept) [] /\
+       search crc valid eh_of true (crash_repair crc valid s keep) h ig =
+         (Found (frames crc (post ++ kept)), s') /\
+       decode_all crc valid true RGroup (frames crc (post ++ kept)) = (post ++ kept, TEof))
+    \/ CrcCollision crc.
+Proof. exact search_after_repair. Qed.
+Print Assumptions C15_search_after_repair.
+
+(* catchupReplay(h), WAL part (replay.go with the F53 repair: everything is decoded before
+   anything is applied): marker h-1 in the head, no marker h anywhere — the sanity search does
+   not find h, the second search stands behind the first marker h-1 of the head, and the decode
+   loop ends with exactly the records behind it (COk) or, when the head ends in a torn record,
+   with the DataCorruptionError that sends OnStart into the repair (CCorrupt).  No assumption on
+   the order of the markers. *)
+Theorem C15_catchup_replay :
+  forall (crc : bytes -> bytes) (valid : bytes -> bool) (eh_of : bytes -> option Z),
+  (forall d, length (crc d) = 4%nat) ->
+  forall (s : st) (fs : list (list bytes)) (hr : list bytes) (t : bytes) (tb : bool) (h : Z)
+         (pre : list bytes) (d : bytes) (post : list bytes),
+    SInv crc valid s fs hr t -> tail_ok crc tb t -> Idx s -> 1 <= h ->
+    hr = pre ++ d :: post -> eh_of d = Some (h - 1) -> ~ In (h - 1) (markers eh_of pre) ->
+    ~ In h (markers eh_of (concat fs ++ hr)) ->
+    exists s1 fs1,
+      catchup crc valid eh_of true s h = ((if tb then CCorrupt else COk post), s1) /\
+      SInv crc valid s1 fs1 hr t /\ concat fs1 = concat fs /\ same_mem s s1 /\ Idx s1.
+Proof. exact catchup_replay. Qed.
+Print Assumptions C15_catchup_replay.
+
+(* (3) State.OnStart reaches the repair.  The crash leaves a head that ends in a strict,
+   non-empty prefix of the frame of r and holds the marker for h-1 (no marker h in the log):
+   Model.restart = open, catchupReplay -> DataCorruptionError, Stop (flush), backup,
+   repairWalFile, reopen, catchupReplay again — returns status 0 after exactly one repair; the
+   head is then exactly the intact records (x = []; or x = [r] when the cut removed nothing but
+   trailing zero bytes of r, which os.File's short read + zero-initialised buffer restore, see
+   C15_repair_keeps_intact_records), nothing is buffered, everything is synced, the backup
+   .CORRUPTED has the size of the damaged head, a reader over the group returns all records and
+   EOF, and the second replay is handed ALL records behind the marker — or the checksum
+   collides.  [eh_of r <> Some h]: the torn record is not itself the #ENDHEIGHT h marker (its
+   encoding ends in the non-zero varint of h, so the zero-padding case cannot restore it). *)
+Theorem C15_restart_reaches_repair :
+  forall (crc : bytes -> bytes) (valid : bytes -> bool) (eh_of : bytes -> option Z),
+  (forall d, length (crc d) = 4%nat) -> valid [] = false ->
+  forall (s : st) (keep h : Z) (d0a d0b : bytes) (fs : list (list bytes)) (hr : list bytes)
+         (r : bytes) (k : nat) (pre : list bytes) (d : bytes) (post : list bytes),
+    files s = map (frames crc) fs -> Forall (okrec valid) (concat fs ++ hr) ->
+    okrec valid r -> (0 < k < length (frame crc r))%nat ->
+    head (crash s keep) = frames crc hr ++ firstn k (frame crc r) ->
+    1 <= h -> hr = pre ++ d :: post -> eh_of d = Some (h - 1) ->
+    ~ In (h - 1) (markers eh_of pre) ->
+    ~ In h (markers eh_of (concat fs ++ hr)) -> eh_of r <> Some h ->
+    (exists x s', (x = [] \/ x = [r]) /\
+       restart crc valid eh_of true s keep h true d0a d0b = (s', (0%N, true, post ++ x)) /\
+       head s' = frames crc (hr ++ x) /\ buf s' = [] /\ synced s' = len (head s') /\
+       junk s' = len (frames crc hr ++ firstn k (frame crc r)) /\
+       read_all crc valid true s' = (concat fs ++ hr ++ x, TEof))
+    \/ CrcCollision crc.
+Proof. exact restart_reaches_repair. Qed.
+Print Assumptions C15_restart_reaches_repair.
+
+(* (3) from a journal state (hence from every state of C15_durable_across_cycles_partial): the
+   node dies j bytes into writing the unsynced record r; the synced records hs and the complete
+   unsynced ones pre' hold the marker for h-1. *)
+Theorem C15_restart_reaches_repair_journal :
+  forall (crc : bytes -> bytes) (valid : bytes -> bool) (eh_of : bytes -> option Z),
+  (forall d, length (crc d) = 4%nat) -> valid [] = false ->
+  forall (s : st) (fs : list (list bytes)) (hs hu pre' : list bytes) (r : bytes)
+         (post' : list bytes) (j : nat) (h : Z) (d0a d0b : bytes)
+         (p : list bytes) (d : bytes) (post : list bytes),
+    Inv crc valid s fs hs hu -> hu = pre' ++ r :: post' -> (0 < j < length (frame crc r))%nat ->
+    1 <= h -> hs ++ pre' = p ++ d :: post -> eh_of d = Some (h - 1) ->
+    ~ In (h - 1) (markers eh_of p) ->
+    ~ In h (markers eh_of (concat fs ++ hs ++ pre')) -> eh_of r <> Some h ->
+    (exists x s', (x = [] \/ x = [r]) /\
+       restart crc valid eh_of true s (len (frames crc pre') + Z.of_nat j) h true d0a d0b =
+         (s', (0%N, true, post ++ x)) /\
+       head s' = frames crc (hs ++ pre' ++ x) /\ buf s' = [] /\ synced s' = len (head s') /\
+       read_all crc valid true s' = (concat fs ++ hs ++ pre' ++ x, TEof))
+    \/ CrcCollision crc.
+Proof. exact restart_reaches_repair_journal. Qed.
+Print Assumptions C15_restart_reaches_repair_journal.
+
+(* ---- non-vacuity on concrete data (real CRC-32C; a record that starts with byte 99 is the
+   #ENDHEIGHT marker of its second byte) ---- *)
+Definition ex_eh (d : bytes) : option Z :=
+  match d with 99%N :: m :: _ => Some (Z.of_N m) | _ => None end.
+Definition ex_mk (h : N) : bytes := [99; h; 1]%N.
+
+(* a log with a rolled file and a head: markers 0 1 | 0 2, the last record unsynced and cut
+   3 bytes in by the crash, then repaired *)
+Definition ex_ops : list dop :=
+  [DWriteSync (ex_mk 0); DWriteSync (ex_mk 1); DWriteSync ex_r1; DRotate;
+   DWriteSync (ex_mk 0); DWriteSync (ex_mk 2); DWriteSync ex_r2; DWrite ex_r1; DCrash 3].
+Definition ex_s : st := fold_left (dstep crc32c_be vtrue) ex_ops (init_at crc32c_be 0 0 7 []).
+Definition ex_fs : list (list bytes) := [[ex_mk 0; ex_mk 1; ex_r1]].
+Definition ex_hr : list bytes := [ex_mk 0; ex_mk 2; ex_r2].
+
+Example C15_search_iff_nonvacuous :
+  SInv crc32c_be vtrue ex_s ex_fs ex_hr [] /\ tail_ok crc32c_be false [] /\ Idx ex_s /\
+  MonoNZ ex_eh (concat ex_fs ++ ex_hr) /\
+  markers ex_eh (concat ex_fs ++ ex_hr) = [0; 1; 0; 2] /\
+  fst (search crc32c_be vtrue ex_eh true ex_s 1 false) =
+    Found (frames crc32c_be [ex_r1; ex_mk 0; ex_mk 2; ex_r2]) /\
+  fst (search crc32c_be vtrue ex_eh true ex_s 2 true) = Found (frames crc32c_be [ex_r2]) /\
+  fst (search crc32c_be vtrue ex_eh true ex_s 3 true) = NotFound /\
+  (* the marker 0 occurs twice: the one of the newest file is found (C15_search_general) *)
+  fst (search crc32c_be vtrue ex_eh true ex_s 0 true) = Found (frames crc32c_be [ex_mk 2; ex_r2]).
+Proof.
+  split; [|split; [reflexivity|split; [|split; [|vm_compute; repeat split; reflexivity]]]].
+  - constructor; [vm_compute; reflexivity|vm_compute; reflexivity|].
+    repeat constructor; unfold len, wal_max_msg_size_bytes; cbn; lia.
+  - unfold Idx, base. vm_compute. discriminate.
+  - apply sorted_MonoNZ. vm_compute. repeat constructor.
+Qed.
+
+(* a torn tail in front of the marker in scan order: the head (marker 2) ends in 5 bytes of a
+   frame, the marker 1 is in the rolled file.  IgnoreDataCorruptionErrors = false: error;
+   true: found, and the reader behind it runs into the corruption error at the end. *)
+Definition ex_torn : st :=
+  crash (fold_left (dstep crc32c_be vtrue)
+           [DWriteSync (ex_mk 1); DWriteSync ex_r1; DRotate; DWriteSync (ex_mk 2); DWrite ex_r2]
+           (init 0 0)) 5.
+Example C15_search_torn_first_nonvacuous :
+  head ex_torn = frames crc32c_be [ex_mk 2] ++ firstn 5 (frame crc32c_be ex_r2) /\
+  torn_first ex_eh true false 1 [ex_mk 2] /\
+  fst (search crc32c_be vtrue ex_eh true ex_torn 1 false) = SearchErr /\
+  fst (search crc32c_be vtrue ex_eh true ex_torn 1 true) =
+    Found (frames crc32c_be [ex_r1; ex_mk 2] ++ firstn 5 (frame crc32c_be ex_r2)) /\
+  decode_all crc32c_be vtrue true RGroup
+    (frames crc32c_be [ex_r1; ex_mk 2] ++ firstn 5 (frame crc32c_be ex_r2)) =
+    ([ex_r1; ex_mk 2], TCorrupt) /\
+  fst (search crc32c_be vtrue ex_eh true ex_torn 2 false) =
+    Found (firstn 5 (frame crc32c_be ex_r2)).
+Proof.
+  split; [vm_compute; reflexivity|]. split.
+  - repeat split. vm_compute. intros [H|[]]. discriminate.
+  - vm_compute. repeat split; reflexivity.
+Qed.
+
+(* OnStart on a head cut 5 bytes into an unsynced record, node at height 2: one repair, the
+   replay gets the record behind #ENDHEIGHT 1, the head is the intact records *)
+Example C15_restart_reaches_repair_nonvacuous :
+  let s := fold_left (dstep crc32c_be vtrue)
+             [DWriteSync (ex_mk 0); DWriteSync (ex_mk 1); DWriteSync ex_r1; DWrite ex_r2] (init 0 0) in
+  head (crash s 5) = frames crc32c_be [ex_mk 0; ex_mk 1; ex_r1] ++ firstn 5 (frame crc32c_be ex_r2) /\
+  snd (restart crc32c_be vtrue ex_eh true s 5 2 true (ex_mk 0) (ex_mk 0)) = (0%N, true, [ex_r1]) /\
+  head (fst (restart crc32c_be vtrue ex_eh true s 5 2 true (ex_mk 0) (ex_mk 0))) =
+    frames crc32c_be [ex_mk 0; ex_mk 1; ex_r1] /\
+  (* the decoder before the F8 repair on a 2-byte tail: clean EOF, no repair *)
+  snd (restart crc32c_be vtrue ex_eh false s 2 2 true (ex_mk 0) (ex_mk 0)) = (0%N, false, [ex_r1]).
+Proof. vm_compute. repeat split; reflexivity. Qed.
+
+Example C15_search_after_repair_nonvacuous :
+  let s := fold_left (dstep crc32c_be vtrue)
+             [DWriteSync (ex_mk 1); DWriteSync ex_r1; DWrite ex_r2; DWrite ex_r1] (init 0 0) in
+  (* the crash keeps the first unsynced record and 4 bytes of the second *)
+  fst (search crc32c_be vtrue ex_eh true (crash_repair crc32c_be vtrue s 24) 1 false) =
+    Found (frames crc32c_be [ex_r1; ex_r2]).
 Proof. vm_compute. reflexivity. Qed.
